@@ -566,7 +566,11 @@ func (w *naWorld) serveConn(c net.Conn) {
 			_ = c.SetReadDeadline(time.Now().Add(-5 * time.Millisecond))
 		} else if pl.DeadlineMs > 0 {
 			dl = time.Now().Add(time.Duration(pl.DeadlineMs) * time.Millisecond)
-			_ = c.SetReadDeadline(dl)
+			if cs.key%2 == 0 {
+				_ = c.SetDeadline(dl) // nothing is written on this connection before everything has been read
+			} else {
+				_ = c.SetReadDeadline(dl)
+			}
 		} else {
 			_ = c.SetReadDeadline(time.Now().Add(60 * time.Second))
 		}
@@ -621,7 +625,14 @@ func (w *naWorld) serveConn(c net.Conn) {
 		for i := range e {
 			e[i] = naByte(cs.key^0x5555, i)
 		}
+		wdl := time.Now().Add(60 * time.Second)
+		_ = c.SetDeadline(time.Time{})
+		_ = c.SetWriteDeadline(wdl)
 		n, err := c.Write(e)
+		if err == ErrTimeout && time.Now().Before(wdl) {
+			simrt.FailTagged("C19.early_timeout", naLostTags(c), "Write timed out %v before its write deadline", time.Until(wdl))
+			return
+		}
 		if err == nil && n != len(e) {
 			simrt.Fail("C19.short_write", "server Write(%d bytes) returned %d, nil", len(e), n)
 			return
